@@ -1,9 +1,167 @@
 import Driver.Util
-open Lean
+import NixModel.Pure.Poly
+open Lean Nix.Poly
 
+/-!
+Line protocol of the C15 model driver.  One case per line:
+
+`{"dtype": "int16", "shape": [2,3], "raw": ["0/1", …], "coeffs": null | ["1/1", …], "origin": null | "3/2",
+  "ops": [op, …]}`
+
+ops (trailing extra elements — e.g. the read path used on the implementation — are ignored):
+`["set_coeffs", null | ["seq", [rat…], …] | ["scalar", rat, …]]`, `["set_origin", null | ["num", rat, …] | ["bad", …]]`,
+`["read", ix]`, `["view", win, ix]`, `["coeffs"]`, `["origin"]`, `["raw"]`, `["write", [rat…]]`, `["reopen"]`
+with `ix = null | [item…]`, `item = int | [start|null, stop|null, step|null]`, `win = null | [[start, stop], …]`.
+
+Output: `{"ok": [out, …]}`, one `out` per op: `{"ok": value}` or `{"err": "<Err>"}`.
+-/
 namespace Driver.C15
 
-/-- stub: replaced when the model of C15 is built -/
-def main : IO Unit := pureLoop fun _ => bad "C15: model driver not built yet"
+def parseRat? (j : Json) : Option Rat :=
+  match j with
+  | .str s =>
+    match s.splitOn "/" with
+    | [n, d] =>
+      match n.toInt?, d.toNat? with
+      | some n, some d => if d = 0 then none else some (mkRat n d)
+      | _, _ => none
+    | [n] => n.toInt?.map (fun i => (i : Rat))
+    | _ => none
+  | _ => (jInt? j).map (fun i => (i : Rat))
+
+def parseRats? (j : Json) : Option (List Rat) :=
+  match j with
+  | .arr a => a.toList.mapM parseRat?
+  | _ => none
+
+def optInt? (j : Json) : Option (Option Int) :=
+  if isNull j then some none else (jInt? j).map some
+
+def parseItem? (j : Json) : Option AxisIx :=
+  match j with
+  | .arr a =>
+    match a.toList with
+    | [s, e, st] => do
+      let s ← optInt? s
+      let e ← optInt? e
+      let st ← optInt? st
+      pure (.slice s e st)
+    | _ => none
+  | _ => (jInt? j).map AxisIx.int
+
+def parseIndex? (j : Json) : Option Index :=
+  match j with
+  | .null => some none
+  | .arr a => (a.toList.mapM parseItem?).map some
+  | _ => none
+
+def parseWin? (j : Json) : Option (Option (List (Int × Int))) :=
+  match j with
+  | .null => some none
+  | .arr a =>
+    (a.toList.mapM fun p =>
+      match (jArr p).toList with
+      | [s, e] => do
+        let s ← jInt? s
+        let e ← jInt? e
+        pure (s, e)
+      | _ => none).map some
+  | _ => none
+
+def parseOp? (j : Json) : Option Op :=
+  match (jArr j).toList with
+  | Json.str "set_coeffs" :: arg :: _ =>
+    match arg with
+    | .null => some (.setCoeffs .none)
+    | .arr a =>
+      match a.toList with
+      | Json.str "seq" :: l :: _ => (parseRats? l).map (fun cs => .setCoeffs (.seq cs))
+      | Json.str "scalar" :: x :: _ => (parseRat? x).map (fun x => .setCoeffs (.scalar x))
+      | _ => none
+    | _ => none
+  | Json.str "set_origin" :: arg :: _ =>
+    match arg with
+    | .null => some (.setOrigin .none)
+    | .arr a =>
+      match a.toList with
+      | Json.str "num" :: x :: _ => (parseRat? x).map (fun x => .setOrigin (.num x))
+      | Json.str "bad" :: _ => some (.setOrigin .notNumber)
+      | _ => none
+    | _ => none
+  | Json.str "read" :: ix :: _ => (parseIndex? ix).map Op.read
+  | Json.str "view" :: win :: ix :: _ => do
+    let w ← parseWin? win
+    let i ← parseIndex? ix
+    pure (.readView w i)
+  | Json.str "coeffs" :: _ => some .getCoeffs
+  | Json.str "origin" :: _ => some .getOrigin
+  | Json.str "raw" :: _ => some .rawDump
+  | Json.str "write" :: l :: _ => (parseRats? l).map Op.write
+  | Json.str "reopen" :: _ => some .reopen
+  | _ => none
+
+def ratJ (r : Rat) : Json := Json.str (ratStr r)
+def natsJ (l : List Nat) : Json := Json.arr (l.map (fun (n : Nat) => Json.num (JsonNumber.fromNat n))).toArray
+def ratsJ (l : List Rat) : Json := Json.arr (l.map ratJ).toArray
+
+def outJ : Out → Json
+  | .unit => ok Json.null
+  | .err e => err e
+  | .result r => ok (Json.mkObj [("dtype", Json.str r.dtype.name), ("shape", natsJ r.shape), ("vals", ratsJ r.vals)])
+  | .coeffs l => ok (ratsJ l)
+  | .origin o => ok (match o with | none => Json.null | some x => ratJ x)
+  | .raw d s v => ok (Json.mkObj [("dtype", Json.str d.name), ("shape", natsJ s), ("vals", ratsJ v)])
+
+/-- for read operations the driver also reports the raw elements the read selected (`xs`: the same read
+with the calibration cleared) and the calibration in effect; the harness uses them only to decide whether
+the float evaluation of that element is exact or to compute the stated bound (DESIGN §5) -/
+def extras (a : Arr) (op : Op) : List (String × Json) :=
+  let bare : Arr := { a with coeffs := none, origin := none }
+  let cal := [("coeffs", ratsJ a.coeffsGet),
+              ("origin", match a.originGet with | none => Json.null | some x => ratJ x)]
+  match op with
+  | .read _ | .readView _ _ =>
+    match (step bare op).2 with
+    | .result r => ("xs", ratsJ r.vals) :: cal
+    | _ => cal
+  | _ => []
+
+def outJ' (a : Arr) (op : Op) (o : Out) : Json :=
+  match o with
+  | .result r =>
+    ok (Json.mkObj ([("dtype", Json.str r.dtype.name), ("shape", natsJ r.shape), ("vals", ratsJ r.vals)]
+                    ++ extras a op))
+  | _ => outJ o
+
+def runJ (a : Arr) : List Op → List Json
+  | [] => []
+  | op :: ops =>
+    let (a', o) := step a op
+    outJ' a op o :: runJ a' ops
+
+def parseArr? (j : Json) : Option Arr := do
+  let dt ← (j.getObjVal? "dtype").toOption
+  let dtype ← DType.ofName? (jStr dt)
+  let sh ← (j.getObjVal? "shape").toOption
+  let shape ← (jArr sh).toList.mapM (fun x => (jInt? x).bind (fun i => if i < 0 then none else some i.toNat))
+  let raw ← (j.getObjVal? "raw").toOption >>= parseRats?
+  let cj ← (j.getObjVal? "coeffs").toOption
+  let coeffs ← (if isNull cj then some none else (parseRats? cj).map some)
+  let oj ← (j.getObjVal? "origin").toOption
+  let origin ← (if isNull oj then some none else (parseRat? oj).map some)
+  pure { dtype, shape, raw, coeffs, origin }
+
+def handle (j : Json) : Json :=
+  match parseArr? j with
+  | none => bad "C15: malformed array description"
+  | some a =>
+    match (j.getObjVal? "ops").toOption with
+    | none => bad "C15: no ops"
+    | some opsj =>
+      match (jArr opsj).toList.mapM parseOp? with
+      | none => bad "C15: malformed op"
+      | some ops => ok (Json.arr (runJ a ops).toArray)
+
+def main : IO Unit := pureLoop handle
 
 end Driver.C15
